@@ -126,6 +126,7 @@ type CompileOpts struct {
 	Entry     string // default main.fer
 	ExtraArgs []string
 	ForceCLI  bool
+	Debug     bool // -d
 	GoMaxProcs int   // 0 = default
 	Sched     string // FERRET_VERIF_SCHED value
 }
@@ -146,6 +147,9 @@ func (tc Toolchain) CompileCLI(dir string, o CompileOpts) *CompileResult {
 	args := []string{}
 	if o.TypeOnly {
 		args = append(args, "-t")
+	}
+	if o.Debug {
+		args = append(args, "-d")
 	}
 	if o.Target != "" && o.Target != "native" {
 		args = append(args, "-target", o.Target)
